@@ -7,7 +7,7 @@ Driver of C09.
 
 1. `hmap <op> <op> …` — an operation sequence against a fresh `ObjectHashMap` model (runtime epoch 0):
      `i<key>:<val>` insert · `g<key>` get · `r<key>` remove · `e` epoch bump · `R<a>:<b>` moving collection
-   response: one entry per op `<result>/<capacity>,<entries>,<tombstones>`, result = `ok` | `v<val>` | `none`;
+   response: one entry per op `<result>/<capacity>,<entries>,<tombstones>,<deleted>`, result = `ok` | `v<val>` | `none`;
    the sequence stops at the first `!panic` (a Rust assert / overflow / index panic), `!hang` (the Rust probe
    loop does not terminate) or `!nested`.
 2. `mtx <n> | <tid>,<op>,<obj>,<rd>,<wr> …` — a trace of the real wait lists / blocking primitives driven by
@@ -57,7 +57,7 @@ def runLine (toks : List String) : String := Id.run do
       | .ok (r, m', ep') =>
         m := m'
         ep := ep'
-        out := out.push s!"{showRes r}/{m.capacity},{m.entries},{tombstones m}"
+        out := out.push s!"{showRes r}/{m.capacity},{m.entries},{tombstones m},{m.deleted}"
   return " ".intercalate out.toList
 
 end HmapDrv
